@@ -24,6 +24,10 @@ REPO = "/repo"
 
 
 def apply_edit(root, m):
+    for e in m.get("edits", []):
+        apply_edit(root, dict(e, file=e.get("file", m.get("file"))))
+    if "old" not in m:
+        return
     path = os.path.join(root, m["file"])
     with open(path, newline="") as f:
         s = f.read()
